@@ -66,6 +66,7 @@ def fan_transcript(ch, r):
     default_ctor = client and ch.bool()
     small_memory = ch.chance(64)
     loose = False
+    bystander = None
     if default_ctor:
         ep = Endpoint(True, conn=h2.connection.H2Connection())
         r.labels.add('fan:default-constructed-client')
@@ -78,8 +79,13 @@ def fan_transcript(ch, r):
         # (one client in four has outbound validation off: it may then send lists no validator would pass, such as a
         # method given twice, once as bytes and once as text)
         loose = client and ch.chance(64)
-        ep = Endpoint(client, header_encoding=ch.pick([None, None, 'utf-8', 'latin-1']),
-                      **({'validate_outbound_headers': False} if loose else {}))
+        # the configuration object is shared with a second connection, as servers do for all their connections;
+        # what that bystander is told by *its* peer differs between the two in-process runs (BYSTANDER) and must
+        # not show in this connection's transcript
+        cfg = h2.config.H2Configuration(client_side=client, header_encoding=ch.pick([None, None, 'utf-8', 'latin-1']),
+                                        **({'validate_outbound_headers': False} if loose else {}))
+        ep = Endpoint(client, conn=h2.connection.H2Connection(cfg))
+        bystander = h2.connection.H2Connection(cfg)
     if ch.chance(80):
         # settings installed before the connection starts (the way some servers configure it)
         ep.c.local_settings = h2.settings.Settings(
@@ -102,6 +108,15 @@ def fan_transcript(ch, r):
                                 (5, ch.pick([16384, 20000])), (6, 9000), (0x21, ch.u16()), (0x99, 1)) if ch.chance(200)]
     log.note('recv', 'settings', peer, ep.recv((b'' if client else wire.PREFACE) + wire.settings(peer) +
                                                wire.settings(ack=True)))
+    if bystander is not None:
+        r.labels.add('fan:bystander-sharing-the-configuration')
+        try:
+            bystander.initiate_connection()
+            told = [(5, 2 ** 24 - 1), (4, 1000), (1, 0), (3, 1)] if BYSTANDER[0] else []
+            bystander.receive_data((b'' if client else wire.PREFACE) + wire.settings(told) + wire.settings(ack=True))
+            bystander.data_to_send()
+        except Exception:   # noqa: BLE001 - the bystander is not under test
+            pass
     k = ch.int(3, 14)
     sids = [1 + 2 * i for i in range(k)]
     for sid in sids:
@@ -183,6 +198,10 @@ def fan_transcript(ch, r):
         # late frames on every stream: which of them are still remembered must not depend on anything but the calls
         for sid in sids:
             log.note('recv', 'late-headers', sid, ep.recv(wire.headers(sid, enc.encode([(b'x-late', b'1')]), end_stream=True)))
+    if bystander is not None and client:
+        # a request whose header block needs several frames at *this* peer's MAX_FRAME_SIZE
+        sid = sids[-1] + 8
+        log.note('call', 'send_headers', sid, ep.call('send_headers', sid, req[:4] + [(b'x-big', b'B' * 20000)]))
     log.note('call', 'close_connection', None, ep.call('close_connection'))
     r.labels.add('fan')
     if len(cookies) >= 3:
@@ -289,6 +308,7 @@ def describe(p, i):
 
 
 _ncases = [0]
+BYSTANDER = [0]      # what the bystander connection of a fan scenario is told by its peer in this run
 
 
 def run_case(data):
@@ -306,7 +326,11 @@ def run_case(data):
         transcript(noise_of(data))       # a different program on other connections in between
     except Exception:   # noqa: BLE001
         pass
-    b, _, _ = transcript(data)
+    BYSTANDER[0] = 1
+    try:
+        b, _, _ = transcript(data)
+    finally:
+        BYSTANDER[0] = 0
     others = [('same-process', b)] + [('hashseed-' + CHILD_SEEDS[i], _ask(i, data)) for i in range(len(_children))]
     for name, d in others:
         if d != a:
